@@ -5,7 +5,7 @@
     in order of first appearance (sentinels 0 and 1, then 2, 3, ... ; a node that leaves the chain
     loses its name), which is exactly how the model allocates, so the two snapshots are comparable:
     node identity under update, promotion and recycling is part of what is compared. *)
-From VF Require Import Base Enc Heap HeapIterDef.
+From VF Require Import Base Iter Enc Heap HeapIterDef.
 From Coq Require Import List Arith.
 Import ListNotations.
 Open Scope Z_scope.
@@ -54,10 +54,19 @@ Definition enc_hout (o : hout) : list Z :=
   | OBool b => [zb b]
   | OValPut a b => enc_opt_v a ++ enc_opt_put b
   | OBoolPut a b => zb a :: enc_opt_put b
+  | OIter kd ys => enc_iter_out kd ys
   end.
 
 Definition herr_code (e : herr) : Z :=
   match e with EUaf => 1 | EUninit => 2 | EDoubleFree => 3 | EUnwrap => 4 end.
+
+(** an iterator script on one list: [kind npre na nb triples...] (Enc.dec_iter); the result as LruStep encodes it *)
+Definition run_hlist_iter (h : heap) (q : hlru) (args : list Z) : option (hres (heap * list Z)) :=
+  match dec_iter args with
+  | Some (kd, pre, pa, pb) =>
+    Some (hdo (h1, ys) <- h_iter_script h q kd pre pa pb; HOk (h1, enc_iter_out kd ys))
+  | None => None
+  end.
 
 (** a memory error of the model is reported as the result [-2000; code]: the implementation never
     prints that, so the comparison fails *)
@@ -68,6 +77,12 @@ Definition hstep_enc (s : hstate) (o : list Z) : option (hstate * list Z * list 
     | [8] => Some (s, [zn (length (hidx (hs_q s)))], [0])       (* len = map.len() *)
     | [9] => Some (s, [zn (hcap (hs_q s))], [0])
     | [10] => Some (s, [zb (Nat.eqb (length (hidx (hs_q s))) 0)], [0])
+    | 24 :: args =>                                             (* the iterators *)
+      match run_hlist_iter (hs_h s) (hs_q s) args with
+      | Some (HOk (h1, out)) => Some (mkHstate h1 (hs_q s), out, [0])
+      | Some (HErr e) => Some (s, [-2000; herr_code e], [0])
+      | None => None
+      end
     | [25] =>                                                   (* x = x.clone() *)
       match h_clone_replace (hs_h s) (hs_q s) with
       | HOk (h1, q1) => Some (mkHstate h1 q1, [], [0])
